@@ -514,14 +514,9 @@ carquet_status_t carquet_offset_index_serialize(
         thrift_write_struct_end(&enc);
     }
 
-    /* Field 2: uncompressed_page_sizes (list<i32>) - optional */
-    if (builder->track_uncompressed && builder->uncompressed_sizes) {
-        thrift_write_field_header(&enc, THRIFT_TYPE_LIST, 2);
-        thrift_write_list_begin(&enc, THRIFT_TYPE_I32, builder->num_pages);
-        for (int32_t i = 0; i < builder->num_pages; i++) {
-            thrift_write_i32(&enc, builder->uncompressed_sizes[i]);
-        }
-    }
+    /* parquet.thrift's OffsetIndex has no member for uncompressed page sizes (its
+     * field 2 is list<i64> unencoded_byte_array_data_bytes): the sizes a builder
+     * tracks are not serialised. */
 
     thrift_write_struct_end(&enc);
 
